@@ -4462,6 +4462,41 @@ class NetCDFWrite(IOWrite):
         """
         self.write_vars["netcdf"].close()
 
+    def _check_not_source_file(self, filename, fields, mode="w"):
+        """Refuse to write to a file that the output constructs use.
+
+        Symbolic links are resolved on both sides of the comparison,
+        so that a file is recognised whatever path it was read from.
+
+        .. versionadded:: (cfdm) NEXTVERSION
+
+        :Parameters:
+
+            filename: `str`
+                The name of the file that is about to be deleted and
+                recreated, or appended to.
+
+            fields: sequence of `Field` or `Domain`
+                The constructs to be written.
+
+            mode: `str`, optional
+                The mode of the write, for the error message.
+
+        :Returns:
+
+            `None`
+
+        """
+        filename = os.path.realpath(filename)
+        for f in fields:
+            for original in self.implementation.get_original_filenames(f):
+                if os.path.realpath(original) == filename:
+                    raise ValueError(
+                        f"Can't write with mode {mode!r} to a file that "
+                        "contains data that needs to be read: "
+                        f"{f!r} uses {filename}"
+                    )
+
     def file_open(self, filename, mode, fmt, fields):
         """Open the netCDF file for writing.
 
@@ -4494,14 +4529,11 @@ class NetCDFWrite(IOWrite):
                 A `netCDF4.Dataset` object for the file.
 
         """
-        if fields and mode == "w":
-            filename = os.path.abspath(filename)
-            for f in fields:
-                if filename in self.implementation.get_original_filenames(f):
-                    raise ValueError(
-                        "Can't write with mode 'w' to a file that contains "
-                        f"data that needs to be read: {f!r} uses {filename}"
-                    )
+        if fields and mode in ("w", "a"):
+            # Deleting the file (mode 'w') would destroy data that are
+            # yet to be read from it, and re-opening it for reading
+            # whilst it is open for appending (mode 'a') is not safe
+            self._check_not_source_file(filename, fields, mode)
 
         # mode == 'w' is safer than != 'a' in case of a typo (the letters
         # are neighbours on a QWERTY keyboard) since 'w' is destructive.
@@ -5210,6 +5242,13 @@ class NetCDFWrite(IOWrite):
                 )
         else:
             g["overwrite"] = False
+
+        if external is not None and not g["dry_run"]:
+            # The external file is always overwritten, so it must not
+            # be a file that any of the output constructs still uses
+            self._check_not_source_file(
+                os.path.expanduser(os.path.expandvars(external)), fields
+            )
 
         g["filename"] = filename
         g["netcdf"] = self.file_open(filename, mode, fmt, fields)
